@@ -120,11 +120,10 @@ Fixpoint retry_loop {A} (k : nat) (last : ekind) (attempt : M A) : M A := fun n 
             | r => r
             end
   end.
-(* retry_count += 1 overflows for usize::MAX (panic with overflow checks) *)
+(* for _ in 0..=retry_count: retry_count + 1 tries, for every usize *)
 Definition usize_max : N := 2 ^ 64 - 1.
 Definition retry_on_timeout {A} (retries : N) (attempt : M A) : M A :=
-  if usize_max <=? retries then mpanic site_add_overflow
-  else retry_loop (S (N.to_nat retries)) PacketReceive attempt.
+  retry_loop (S (N.to_nat retries)) PacketReceive attempt.
 
 (* ---- maybe_gather! ---- *)
 Inductive toggle := Skip | Try | Enforce.
